@@ -188,5 +188,13 @@ def generate_jaqal_value(val):
         or isinstance(val, AnnotatedValue)
     ):
         return val.name
-    elif isinstance(val, float) or isinstance(val, int):
+    elif isinstance(val, float):
+        text = str(val)
+        if "e" in text and "." not in text:
+            # str() drops the fraction of e.g. 1e-06 and 1e+16, but Jaqal
+            # numbers need one.
+            mantissa, exponent = text.split("e")
+            text = f"{mantissa}.0e{exponent}"
+        return text
+    elif isinstance(val, int):
         return str(val)
